@@ -199,11 +199,21 @@ def _attr_ctx(parent, node) -> str:
 def attribute_sigs(trees: Dict[str, ast.Module]) -> Dict[str, Dict[str, int]]:
     """usage signature of every instance attribute (a name stored through `self.<name> = ...` somewhere in the package)"""
     stored: Set[str] = set()
+    methods: Dict[str, List[ast.AST]] = {}
     for t in trees.values():
         for n in ast.walk(t):
             if isinstance(n, ast.Attribute) and not isinstance(n.ctx, ast.Load) and isinstance(n.value, ast.Name) and n.value.id == "self":
                 stored.add(n.attr)
+            elif isinstance(n, ast.ClassDef):
+                for st in n.body:
+                    if isinstance(st, (ast.FunctionDef, ast.AsyncFunctionDef)) and not (st.name.startswith("__") and st.name.endswith("__")) \
+                            and not st.name.startswith(("visit_", "call_")):
+                        methods.setdefault(st.name, []).append(st)
+    stored |= set(methods)
     sigs: Dict[str, Counter] = {a: Counter() for a in stored}
+    for name, defs in methods.items():
+        for d in defs:
+            sigs[name]["def:" + str(len(d.args.args))] += 2
     for t in trees.values():
         par = _parents(t)
         for n in ast.walk(t):
@@ -265,6 +275,10 @@ def recover_attribute_renames(trees: Dict[str, ast.Module], ref_sigs: Dict[str, 
             for n in ast.walk(t):
                 if isinstance(n, ast.Attribute) and n.attr in mp:
                     n.attr = mp[n.attr]
+                elif isinstance(n, ast.ClassDef):
+                    for st in n.body:
+                        if isinstance(st, (ast.FunctionDef, ast.AsyncFunctionDef)) and st.name in mp:
+                            st.name = mp[st.name]
     return mp
 
 
